@@ -85,6 +85,29 @@ CHECKS = {
         "DESIGN.md section 5 C08",
         NOTE_MODEL,
     ),
+
+    "C10": core(
+        "c10",
+        "states = (byte string, radix) and (digit slice, radix): (a) all strings of <= 4 characters (<= 3 above 16 bits; <= 5/6 over a reduced alphabet) over {0, 1, top digit in both cases, first invalid digit, +, -, space, _, e-acute} plus every byte value 0..255 alone / next to a digit / after a sign, per radix; (b) every count of leading zeros x all digit bodies over {0, 1, top} up to capacity+1 digits x sign; (c) numerals of boundary values (incl. MAX+1, MIN-1, (MAX+1)*r, 2^BITS*r^j) with 0..2*capacity+1 leading zeros, both cases, with/without '+'; (d) all digit slices of <= 4-5 digits over {0, 1, r-1, r, 255} and value-directed slices in both byte orders; compared with an independent reference parser into exact integers; non-trivial = expected Err / None",
+        "from_str_radix, FromStr, parse_bytes (parse_str_radix on valid input) and from_radix_be/le accept exactly the integer grammar and return the denoted value / the documented error kind on every enumerated string and slice.",
+        "DESIGN.md section 5 C10",
+        NOTE_MODEL,
+    ),
+    "C11": core(
+        "c11",
+        "states = (value, radix): FULL values up to 16 bits (24 bits x 12 radices in the thorough tier), boundary-digit sets elsewhere x every radix 2..=256; to_str_radix / to_radix_be / to_radix_le compared with repeated division in the model, and parse(print(x)) = x through the real parser",
+        "Radix output is the canonical numeral / digit sequence and round-trips through the real parser for every enumerated (value, radix).",
+        "DESIGN.md section 5 C11",
+        NOTE_MODEL,
+        extra={"assumptions": ["distinct_nontrivial counts transitions with an expected Err/None/panic; C11 has none by construction (every state is a valid value and radix)"]},
+    ),
+    "C12": core(
+        "c12",
+        "states = (value, trait, flag combination, width): FULL values at 8 bits (16 in the thorough tier), boundary sets plus d*10^k numerals elsewhere x 8 traits x 56 combinations of fill/alignment, '+', '#', '0' (literal format strings) x widths around the numeral lengths and 255; oracle = the primitive holding the same value (<= 128 bits; the BITS-bit pattern for radix forms) or a wrapper handing the model's numeral to Formatter::pad_integral (wider; the wrapper is itself compared with the primitives first)",
+        "Display, Debug, Binary, Octal, LowerHex, UpperHex, LowerExp, UpperExp print exactly what Rust prints for a primitive of the same value, for every enumerated value, flag combination and width.",
+        "DESIGN.md section 5 C12",
+        NOTE_MODEL + "; core::fmt::Formatter::pad_integral is trusted for widths above 128 bits",
+    ),
 }
 
 ALL = ["C%02d" % i for i in range(1, 21)]
